@@ -154,11 +154,86 @@ Proof.
   intros E; inv_val E; cbn [vs_addr vs_size]; lia.
 Qed.
 
+(* ------------------------------------------------------------------ the chunked implementor:
+   every answer of a provided method lies inside ONE chunk *)
+Lemma chunk_arith cc gg L off cnt : 1 <= cc -> off + cnt <= L -> cnt <= cc - off mod cc ->
+  chunk_phys cc gg off / (cc + gg) = off / cc /\
+  chunk_phys cc gg off + cnt <= (off / cc) * (cc + gg) + N.min cc (L - (off / cc) * cc) /\
+  chunk_phys cc gg off + cnt <= chunk_span L cc gg.
+Proof.
+  intros Hc Hl Hn. unfold chunk_phys, chunk_span.
+  pose proof (N.div_mod off cc ltac:(lia)) as Hdm.
+  pose proof (N.mod_lt off cc ltac:(lia)) as Hr.
+  assert (Hq : off / cc <= L / cc) by (apply N.div_le_mono; lia).
+  remember (off / cc) as q eqn:Eq. remember (off mod cc) as r eqn:Er. remember (L / cc) as Q eqn:EQ.
+  assert (Hqc : q * cc = cc * q) by apply N.mul_comm.
+  assert (Hd : q * (cc + gg) = cc * q + q * gg) by (rewrite N.mul_add_distr_l; lia).
+  assert (Hrc : r + cnt <= cc) by lia.
+  split; [|split].
+  - symmetry. apply N.div_unique with (r := r); [lia|]. rewrite (N.mul_comm (cc + gg) q). reflexivity.
+  - destruct (N.min_spec cc (L - q * cc)) as [[_ ->]|[_ ->]]; [lia|]. rewrite Hqc. lia.
+  - assert (Hm : q * (cc + gg) <= Q * (cc + gg)) by (apply N.mul_le_mono_r; exact Hq).
+    rewrite N.mul_add_distr_r, N.mul_1_l. lia.
+Qed.
+
+(* the accessor designates cnt bytes starting at the physical place of logical byte off, and they
+   lie in the chunk of off *)
+Definition chunk_placed (A L cc gg : N) (a : accessor) : Prop :=
+  exists off, off + acc_len a <= L /\ acc_len a <= cc - off mod cc /\ acc_base a = A + chunk_phys cc gg off.
+
+Lemma chunk_gs_Ok A L cc gg off cnt s : chunk_gs A L cc gg off cnt = Val (Ok s) ->
+  off + vs_size s <= L /\ vs_size s <= cc - off mod cc /\ vs_addr s = A + chunk_phys cc gg off.
+Proof.
+  unfold chunk_gs. destruct (N.leb_spec (off + cnt) L) as [Hl|Hl]; [|discriminate].
+  intros E. inv_val E. cbn [vs_addr vs_size]. repeat split; lia.
+Qed.
+
+Lemma chunk_derive_placed_lemma : forall m A L cc gg op c, op_wf op ->
+  derive_vm m (chunk_gs A L cc gg) L op = Val (Ok c) -> chunk_placed A L cc gg c /\ acc_aligned c.
+Proof.
+  intros m A L cc gg op c Hwf E. apply derive_vm_shape_lemma in E; [|exact Hwf].
+  unfold chunk_placed.
+  destruct op; cbn [vm_shape] in E; try contradiction.
+  - destruct E as (s & E & ->). apply chunk_gs_Ok in E. cbn [acc_base acc_len acc_aligned].
+    split; [exists offset; exact E|exact I].
+  - destruct E as (s & E & ->). apply chunk_gs_Ok in E. cbn [acc_base acc_len acc_aligned].
+    split; [exists 0; exact E|exact I].
+  - destruct E as (s & E & Hs & ->). apply chunk_gs_Ok in E. cbn [acc_base acc_len acc_aligned vr_addr vr_esz].
+    rewrite <- Hs. split; [exists offset; exact E|exact I].
+  - destruct E as (Hn & Hb & s & E & Hs & ->). apply chunk_gs_Ok in E.
+    cbn [acc_base acc_len acc_aligned va_addr va_nelem va_esz].
+    rewrite <- Hs. split; [exists offset; exact E|exact I].
+  - destruct E as (s & E & Hs & Ha & ->). apply chunk_gs_Ok in E.
+    cbn [acc_base acc_len acc_aligned tr_addr tr_size tr_align].
+    rewrite <- Hs. split; [exists offset; exact E|exact Ha].
+  - destruct E as (s & E & Hs & Ha & ->). apply chunk_gs_Ok in E.
+    cbn [acc_base acc_len acc_aligned tr_addr tr_size tr_align].
+    rewrite <- Hs. split; [exists offset; exact E|exact Ha].
+  - destruct E as (s & E & Hs & Ha & ->). apply chunk_gs_Ok in E.
+    cbn [acc_base acc_len acc_aligned tr_addr tr_size tr_align].
+    rewrite <- Hs. split; [exists offset; exact E|exact Ha].
+Qed.
+
+(* in closed form: chunk number j, the bytes of the accessor lie in
+   [A + j*(c+g), A + j*(c+g) + min(c, L - j*c)) - never in a gap, never in two chunks *)
+Lemma chunk_in_one_chunk_lemma : forall m A L cc gg op c, 1 <= cc -> op_wf op ->
+  derive_vm m (chunk_gs A L cc gg) L op = Val (Ok c) ->
+  exists j, A + j * (cc + gg) <= acc_base c /\
+            acc_base c + acc_len c <= A + j * (cc + gg) + N.min cc (L - j * cc).
+Proof.
+  intros m A L cc gg op c Hc Hwf E.
+  destruct (chunk_derive_placed_lemma _ _ _ _ _ _ _ Hwf E) as [(off & H1 & H2 & H3) _].
+  destruct (chunk_arith cc gg L off (acc_len c) Hc H1 H2) as (_ & H5 & _).
+  exists (off / cc). rewrite H3. unfold chunk_phys in *.
+  remember (off / cc) as q. remember (off mod cc) as r. remember (N.min cc (L - q * cc)) as mn.
+  remember (q * (cc + gg)) as qs. split; lia.
+Qed.
+
 (* ------------------------------------------------------------------ the model satisfies the checker *)
 Lemma impl_root_rel ci : wf_caseimpl ci ->
   rel_acc (ci_case ci) (impl_geom (ci_case ci)) 0 (ARegion (RG (c_base (ci_case ci)) (c_len (ci_case ci)))).
 Proof.
-  intros (Hk & Hb & Hl). unfold rel_acc, acc_valid, impl_geom, root_base. rewrite Hk.
+  intros (Hk & Hb & Hl & _). unfold rel_acc, acc_valid, impl_geom, root_base. rewrite Hk.
   cbn [g_kind g_ridx g_off g_len g_nelem kind_of acc_base acc_len acc_nelem rg_addr rg_size is_slice_root].
   change (is_slice_root RK_FAKE) with true. cbn iota.
   repeat split; try reflexivity; try lia.
@@ -178,16 +253,20 @@ Proof.
   cbn [bind]. intros E; inv_val E. exists (L - 1). split; [lia|reflexivity].
 Qed.
 
-Lemma impl_step_ok ci o : wf_caseimpl ci ->
+(* one request on a contiguous stand-in (kinds 5, 6, 7) *)
+Lemma impl_step_contig ci o : wf_caseimpl ci -> ci_k ci <> IK_CHUNK ->
   let c := ci_case ci in
   let '(ob, st') := impl_step ci o in
   negb (is_own_get_slice o && (o_class ob =? 0)) = true /\
   step_ok c (impl_geom c) o ob = true /\ rel c (step_geom (impl_geom c) o ob) st'.
 Proof.
-  intros Hwf c. pose proof (impl_root_rel ci Hwf) as HR. fold c in HR.
-  pose proof Hwf as (Hk & Hb & Hl). fold c in Hk, Hb, Hl.
+  intros Hwf Hnc c. pose proof (impl_root_rel ci Hwf) as HR. fold c in HR.
+  pose proof Hwf as (Hk & Hb & Hl & _). fold c in Hk, Hb, Hl.
   set (root := ARegion (RG (c_base c) (c_len c))) in *.
   unfold impl_step. fold c. fold root.
+  assert (Hgs : ci_gs ci = impl_gs (ci_k ci) (c_base c) (c_len c)).
+  { unfold ci_gs. destruct (N.eqb_spec (ci_k ci) IK_CHUNK) as [X|_]; [contradiction|reflexivity]. }
+  rewrite Hgs.
   destruct (is_own_get_slice o) eqn:Hown.
   { destruct (err_step c (impl_geom c) o 7 ltac:(discriminate)) as [H1 H2]. rewrite H2.
     split; [reflexivity|]. split; [exact H1|exact HR]. }
@@ -243,15 +322,145 @@ Proof.
     split; [reflexivity|]. split; [exact H1|exact HR].
 Qed.
 
-Lemma C01impl_model_ok_lemma : forall ci, wf_caseimpl ci -> ok_C01impl ci (run_C01impl ci) = true.
+(* one request on the chunked stand-in (kind 8) *)
+Lemma chunk_err ci o cl : cl <> 0 -> chunk_step_ok ci o (err_obs cl) = true.
 Proof.
-  intros ci Hwf. unfold ok_C01impl, run_C01impl.
-  destruct (c_ops (ci_case ci)) as [|o rest] eqn:Hops; [reflexivity|].
-  pose proof (impl_step_ok ci o Hwf) as H. cbn zeta in H.
-  destruct (impl_step ci o) as [ob st']. destruct H as (H0 & H1 & H2).
-  rewrite H0. cbn [andb chain_ok]. rewrite H1. cbn [andb].
+  intros H. unfold chunk_step_ok, err_obs; cbn [o_class].
+  destruct (N.eqb_spec cl 0); [contradiction|reflexivity].
+Qed.
+
+(* what the checker needs of a request answered with accessor a': kind, fit, extent, alignment *)
+Lemma chunk_request_facts c L gs o d a' : dop_of o = Some d -> is_own_get_slice o = false ->
+  vm_shape gs L d a' -> (forall off cnt s, gs off cnt = Val (Ok s) -> off + vs_size s <= c_len c) ->
+  forall rb ob, ob = closed_obs rb 0 a' -> root_base c 0 + (acc_base a' - rb) = acc_base a' ->
+  result_kind KRegion (s_rq o) = Some (kind_of a') /\ chunk_fitsb (c_len c) o = true /\
+  obs_extent (kind_of a') o ob = acc_len a' /\ alignedb c (kind_of a') o ob = true.
+Proof.
+  unfold dop_of, is_own_get_slice. intros E Hown Hs Hgs rb ob -> Hrb.
+  unfold chunk_fitsb, obs_extent, alignedb, elem_size, closed_obs.
+  cbn [o_class o_off o_len o_glen o_nelem o_ridx].
+  destruct (s_rq o); try discriminate; inversion E; subst d; cbn [vm_shape] in Hs; try contradiction.
+  - destruct Hs as (s & E1 & ->). cbn [kind_of result_kind is_vm acc_len kind_eqb orb].
+    repeat split.
+  - destruct Hs as (s & E1 & Hsz & ->). apply Hgs in E1.
+    cbn [kind_of result_kind is_vm acc_len acc_base kind_eqb orb vr_esz ety_of e_size] in *.
+    repeat split. apply N.leb_le. lia.
+  - destruct Hs as (Hn & Hb & s & E1 & Hsz & ->). apply Hgs in E1.
+    cbn [kind_of result_kind is_vm acc_len acc_base acc_nelem kind_eqb orb va_len va_nelem va_esz ety_of e_size] in *.
+    repeat split. apply N.leb_le. lia.
+  - destruct Hs as (s & E1 & Hsz & Ha & ->). apply Hgs in E1.
+    cbn [kind_of result_kind is_vm acc_len acc_base kind_eqb orb tr_addr tr_size ety_of atomic_ety aty_of at_size at_align e_size e_align ref_align] in *.
+    repeat split; [apply N.leb_le; lia|]. apply aligned_at_true. rewrite Hrb. exact Ha.
+  - destruct Hs as (s & E1 & Hsz & Ha & ->). apply Hgs in E1.
+    cbn [kind_of result_kind is_vm acc_len acc_base kind_eqb orb tr_addr tr_size ety_of atomic_ety aty_of at_size at_align e_size e_align ref_align] in *.
+    repeat split; [apply N.leb_le; lia|]. apply aligned_at_true. rewrite Hrb. exact Ha.
+  - destruct Hs as (s & E1 & Hsz & Ha & ->). apply Hgs in E1.
+    cbn [kind_of result_kind is_vm acc_len acc_base kind_eqb orb tr_addr tr_size ety_of atomic_ety aty_of at_size at_align e_size e_align ref_align] in *.
+    repeat split; [apply N.leb_le; lia|]. apply aligned_at_true. rewrite Hrb. exact Ha.
+Qed.
+
+Lemma impl_step_chunk ci o : wf_caseimpl ci -> ci_k ci = IK_CHUNK ->
+  let c := ci_case ci in
+  let '(ob, st') := impl_step ci o in
+  chunk_step_ok ci o ob = true /\ rel c (step_geom (impl_geom c) o ob) st'.
+Proof.
+  intros Hwf Hch c. pose proof (impl_root_rel ci Hwf) as HR. fold c in HR.
+  pose proof Hwf as (Hk & Hb & Hl & Hcw). fold c in Hk, Hb, Hl, Hcw.
+  destruct (Hcw Hch) as (Hc1 & Hg1 & Hspan).
+  set (root := ARegion (RG (c_base c) (c_len c))) in *.
+  unfold impl_step. fold c. fold root.
+  assert (Hgs : ci_gs ci = chunk_gs (c_base c) (c_len c) (ci_c ci) (ci_g ci)).
+  { unfold ci_gs. rewrite Hch, N.eqb_refl. reflexivity. }
+  rewrite Hgs.
+  destruct (is_own_get_slice o) eqn:Hown.
+  { destruct (err_step c (impl_geom c) o 7 ltac:(discriminate)) as [_ H2]. rewrite H2.
+    split; [apply chunk_err; discriminate|exact HR]. }
+  destruct (dop_of o) as [d|] eqn:E.
+  2:{ destruct (err_step c (impl_geom c) o 7 ltac:(discriminate)) as [_ H2]. rewrite H2.
+      split; [apply chunk_err; discriminate|exact HR]. }
+  pose proof (dop_of_wf o d E) as Hdwf.
+  unfold finish.
+  destruct (derive_vm (c_mode c) (chunk_gs (c_base c) (c_len c) (ci_c ci) (ci_g ci)) (c_len c) d) as [[a'|e]|s|] eqn:D.
+  - destruct (chunk_derive_placed_lemma _ _ _ _ _ _ _ Hdwf D) as [(off & P1 & P2 & P3) _].
+    destruct (chunk_arith (ci_c ci) (ci_g ci) (c_len c) off (acc_len a') Hc1 P1 P2) as (A1 & A2 & A3).
+    assert (Hrb0 : root_base c 0 = c_base c).
+    { unfold root_base. rewrite Hk. reflexivity. }
+    assert (Hv : acc_valid a') by (unfold acc_valid; lia).
+    rewrite obs_of_closed by (try assumption; rewrite Hrb0; lia).
+    rewrite Hrb0.
+    set (ob := closed_obs (c_base c) 0 a').
+    pose proof (derive_vm_shape_lemma _ _ _ _ _ Hdwf D) as Hshape.
+    destruct (chunk_request_facts c (c_len c) _ o d a' E Hown Hshape
+                ltac:(intros off0 cnt0 s0 E0; apply chunk_gs_Ok in E0; lia)
+                (c_base c) ob eq_refl ltac:(rewrite Hrb0; lia)) as (F1 & F2 & F3 & F4).
+    assert (Hreach : obs_reach (kind_of a') o ob = acc_len a').
+    { unfold obs_reach. rewrite F3. change (o_glen ob) with (acc_len a').
+      destruct (acc_len a' =? GUARD_PANIC); [reflexivity|apply N.max_id]. }
+    split.
+    + unfold chunk_step_ok. change (o_class ob) with 0. rewrite N.eqb_refl. fold c.
+      rewrite F1, Hown, F2, F4, Hreach. change (o_ridx ob) with 0. rewrite N.eqb_refl.
+      cbn [negb andb]. rewrite andb_true_r.
+      unfold chunk_containedb. change (o_off ob) with (acc_base a' - c_base c).
+      replace (acc_base a' - c_base c) with (chunk_phys (ci_c ci) (ci_g ci) off) by lia.
+      rewrite A1. apply N.leb_le. exact A2.
+    + unfold rel, rel_acc, step_geom, impl_geom. change (o_class ob) with 0. rewrite N.eqb_refl.
+      cbn [g_kind]. rewrite F1. cbn [g_kind g_ridx g_off g_len g_nelem]. rewrite F3.
+      change (o_ridx ob) with 0. change (o_off ob) with (acc_base a' - c_base c).
+      change (o_nelem ob) with (acc_nelem a'). rewrite Hrb0.
+      split; [exact Hv|]. repeat split; try reflexivity. lia.
+  - destruct (err_step c (impl_geom c) o (class_of_derr e) (class_of_derr_nz e)) as [_ H2]. rewrite H2.
+    split; [apply chunk_err; apply class_of_derr_nz|exact HR].
+  - destruct (err_step c (impl_geom c) o 5 ltac:(discriminate)) as [_ H2]. rewrite H2.
+    split; [apply chunk_err; discriminate|exact HR].
+  - destruct (err_step c (impl_geom c) o 5 ltac:(discriminate)) as [_ H2]. rewrite H2.
+    split; [apply chunk_err; discriminate|exact HR].
+Qed.
+
+Lemma impl_step_all ci o : wf_caseimpl ci ->
+  let c := ci_case ci in
+  let '(ob, st') := impl_step ci o in
+  impl_step_ok ci o ob = true /\ rel c (step_geom (impl_geom c) o ob) st'.
+Proof.
+  intros Hwf c. unfold impl_step_ok. fold c.
+  destruct (N.eqb_spec (ci_k ci) IK_CHUNK) as [Hk|Hk].
+  - exact (impl_step_chunk ci o Hwf Hk).
+  - pose proof (impl_step_contig ci o Hwf Hk) as H. cbn zeta in H. fold c in H.
+    destruct (impl_step ci o) as [ob st']. destruct H as (H0 & H1 & H2).
+    rewrite H0, H1. split; [reflexivity|exact H2].
+Qed.
+
+Lemma impl_chain_ok_run ci : wf_caseimpl ci ->
+  forall ops, impl_chain_ok ci ops (run_impl_chain ci ops) = true.
+Proof.
+  intros Hwf. induction ops as [|o rest IH]; cbn [run_impl_chain impl_chain_ok]; [reflexivity|].
+  pose proof (impl_step_all ci o Hwf) as H. cbn zeta in H.
+  destruct (impl_step ci o) as [ob st']. destruct H as (H1 & H2).
+  cbn [impl_chain_ok]. rewrite H1. cbn [andb].
+  destruct (o_class ob =? 0); [|exact IH].
   apply chain_ok_run; [|exact H2].
   intros Hs. destruct Hwf as (Hk & _). rewrite Hk in Hs. discriminate.
+Qed.
+
+Lemma C01impl_model_ok_lemma : forall ci, wf_caseimpl ci -> ok_C01impl ci (run_C01impl ci) = true.
+Proof. intros ci Hwf. unfold ok_C01impl, run_C01impl. apply impl_chain_ok_run. exact Hwf. Qed.
+
+(* what an accepting verdict on a chunked case means (about the checker alone): an answer of the
+   implementor that is an accessor is observed inside one chunk *)
+Lemma chunk_checker_sound_lemma : forall ci o ob, ci_k ci = IK_CHUNK ->
+  impl_step_ok ci o ob = true -> o_class ob = 0 ->
+  exists rk j, result_kind KRegion (s_rq o) = Some rk /\
+    j * (ci_c ci + ci_g ci) <= o_off ob /\
+    o_off ob + obs_reach rk o ob <= j * (ci_c ci + ci_g ci) + N.min (ci_c ci) (c_len (ci_case ci) - j * ci_c ci).
+Proof.
+  intros ci o ob Hk H Hc. unfold impl_step_ok in H. rewrite Hk, N.eqb_refl in H.
+  unfold chunk_step_ok in H. rewrite Hc in H. change (0 =? 0) with true in H. cbn iota in H.
+  destruct (result_kind KRegion (s_rq o)) as [rk|]; [|discriminate].
+  rewrite !andb_true_iff in H. destruct H as ((((_ & _) & _) & H) & _).
+  unfold chunk_containedb in H. apply N.leb_le in H.
+  exists rk, (o_off ob / (ci_c ci + ci_g ci)). split; [reflexivity|]. split; [|exact H].
+  destruct (N.eq_dec (ci_c ci + ci_g ci) 0) as [Z|Z].
+  - rewrite Z. lia.
+  - rewrite N.mul_comm. apply N.mul_div_le. exact Z.
 Qed.
 
 (* non-vacuity: a clamping implementor, an atomic request that does not fit - the provided
@@ -261,3 +470,15 @@ Example impl_clamp_refuses :
   derive_vm Release (impl_gs IK_CLAMP 4096 8) 8 (DGetAtomicRef {| e_size := 4; e_align := 4 |} 4)
     = Val (Ok (AAtomic (TR 4100 4 4))).
 Proof. split; reflexivity. Qed.
+
+(* the demonstration of seed C01-7: two chunks of 12 bytes, 4 bytes of gap, an AtomicU64 asked
+   for at logical offset 8 (4 bytes before the chunk ends): get_slice answers 4 bytes, the
+   provided method panics; at offset 0 it is handed out; at 16 (chunk 1, physical offset 20)
+   the address 4096+20 is not 8-aligned *)
+Example impl_chunk_refuses :
+  derive_vm Release (chunk_gs 4096 24 12 4) 24 (DGetAtomicRef {| e_size := 8; e_align := 8 |} 8) = Panic 264 /\
+  derive_vm Release (chunk_gs 4096 24 12 4) 24 (DGetAtomicRef {| e_size := 8; e_align := 8 |} 0)
+    = Val (Ok (AAtomic (TR 4096 8 8))) /\
+  derive_vm Release (chunk_gs 4096 24 12 4) 24 (DGetRef {| e_size := 8; e_align := 8 |} 12)
+    = Val (Ok (ARef (VR 4112 8))).
+Proof. repeat split; reflexivity. Qed.
